@@ -224,7 +224,19 @@ class Wrapper(Contract):
     def apply(self, ex, args, kw, node):
         polys = list(args[: self.arity])
         if not all(isinstance(p, Poly) for p in polys):
-            raise U(f"{self.func} of non-ndpoly operands", node)
+            # numeric operands enter through aspolynomial (align_polynomials converts every operand): the constant polynomial
+            # array with that coefficient (input kind number/array of numpoly.polynomial: proved in contracts/polynomial.py)
+            from engine.polymodel import Arr
+            from contracts.polynomial import Polynomial
+            conv = []
+            for p in polys:
+                if isinstance(p, Poly):
+                    conv.append(p)
+                elif isinstance(p, Arr) and p.kind == "real":
+                    conv.append(Polynomial().apply(ex, [p], {}, node))
+                else:
+                    raise U(f"{self.func} of non-ndpoly operands", node)
+            polys = conv
         extra = {k: v for k, v in kw.items() if k not in ("out",)}
         if kw.get("out") is not None:
             raise U(f"{self.func} with out=", node)
